@@ -65,6 +65,22 @@ impl<'a> Exec<'a> {
     /// Run until quiescence. The step cap is enforced by `W::tick` (panics with a marker that the
     /// runner turns into a livelock verdict).
     pub fn run(&mut self, world: &World) -> End {
+        // what zlink's log statements do during this run (reset when the run's tasks stop)
+        struct LogOff<'w>(&'w World);
+        impl Drop for LogOff<'_> {
+            fn drop(&mut self) {
+                crate::logsub::set_mode(0);
+                let (events, bytes) = crate::logsub::take_counts();
+                if let Ok(mut w) = self.0.try_borrow_mut() {
+                    if events > 0 {
+                        w.stat_add("log.events_seen_by_subscriber", events);
+                        w.stat_add("log.bytes_formatted", bytes);
+                    }
+                }
+            }
+        }
+        crate::logsub::set_mode(world.borrow().cfg.log);
+        let _log_off = LogOff(world);
         let mut woken: Vec<usize> = Vec::new();
         loop {
             woken.clear();
